@@ -14,6 +14,14 @@ fn build(target: &str, hooked: bool) -> Result<PathBuf, String> {
     let dir = format!("{}/.target/{}", root, target);
     let log = format!("{}/.work/build-{}.log", root, target);
     let _ = std::fs::create_dir_all(format!("{}/.work", root));
+    // a snapshot of the repository (WALLEYE_REPO) holds committed files only; Cargo.lock is
+    // git-ignored there, so pin the same dependency versions by copying the live one
+    if let Ok(r) = std::env::var("WALLEYE_REPO") {
+        let lock = format!("{}/Cargo.lock", r);
+        if !std::path::Path::new(&lock).exists() {
+            let _ = std::fs::copy("/repo/Cargo.lock", &lock);
+        }
+    }
     let mut cmd = Command::new("cargo");
     cmd.current_dir(&root)
         .args(["build", "--release", "--offline", "--manifest-path", &format!("{}/Cargo.toml", std::env::var("WALLEYE_REPO").unwrap_or_else(|_| "/repo".to_string())), "--target-dir", &dir])
